@@ -1262,8 +1262,6 @@ func c01Class(msg string) *int {
 		cls = 4
 	case strings.Contains(msg, "not defined on") && strings.Contains(msg, "float64") && (strings.Contains(msg, "operator %") || strings.Contains(msg, "operator &") || strings.Contains(msg, "operator |") || strings.Contains(msg, "operator ^") || strings.Contains(msg, "operator <<") || strings.Contains(msg, "operator >>")):
 		cls = 5
-	case strings.Contains(msg, "can only be compared to nil"):
-		cls = 6
 	default:
 		return nil
 	}
